@@ -83,3 +83,13 @@ contract(
     props=["C03", "C01"],
     doc="tree digest = hash of the listing without metadata + '.dir' (does not depend on file metadata)",
 )
+
+contract(
+    "dvc_data.hashfile.tree:Tree.get_obj",
+    params={},
+    assumed=True, verify=False,
+    bounded=("bounded/tree_listing.py", 300, 5000),
+    props=["C03"],
+    doc="[bounded only] listing clauses outside the verifier's reach (pygtrie, json, sorted): order/metadata independence of the "
+        "identifier, injectivity on neighbouring sets, from_list/as_list/load round trips, sub-tree extraction for every prefix",
+)
